@@ -144,6 +144,15 @@ def run_scenario(run: Run, scen: dict, rng: random.Random):
     if len(list(sc.layers)) > 400:
         run.feature("skipped_large", True)
         return
+    # the distribution must be over the *declared* domains: per-variable arguments belong to that variable id
+    if scen["kind"] in ("ff", "hmm") and scen.get("kwargs"):
+        for sl in sc.input_layers:
+            v = list(sl.scope)[0]
+            kw = scen["kwargs"] if isinstance(scen["kwargs"], dict) else scen["kwargs"][v]
+            for name in ("num_categories", "total_count"):
+                if name in kw and getattr(sl, name, None) != kw[name]:
+                    run.violation("declared-domain", scen, f"variable {v} was declared with {name}={kw[name]} but its input layer has {getattr(sl, name, None)}: the circuit is not a distribution over the declared domain")
+                    return
     if not (sc.is_smooth and sc.is_decomposable):
         run.violation("template-structure", scen, f"template circuit is smooth={sc.is_smooth} decomposable={sc.is_decomposable}")
         return
